@@ -12,6 +12,8 @@
  *                                             ev_run(EVRUN_NOWAIT)); the word says what the
  *                                             pump's call-back does if it is invoked
  *   free
+ *   selftest                                  sanity test of the vloop API that the commands above
+ *                                             do not reach (prints "selftest ok" or aborts)
  * stdout, one line per command:
  *   a=<0|1|-> fired=<n> notif=<n1><n2><n3> ret=<0|1|-> calls=[..] alive=<0|1|->
  *     a      back-end watcher active after the command (vloop only; "-" for ev); after
@@ -190,6 +192,119 @@ static int loop_once(void)
     return vloop_busy(mgr) ? 1 : 0;
 }
 
+/* --- vloop sanity test (tool check, not a verdict) --------------------------- */
+#define ST_CHECK(c) do { if (!(c)) { fprintf(stderr, "vloop selftest failed line %d: %s\n", \
+                                             __LINE__, #c); exit(3); } } while (0)
+static unsigned st_count[8];
+static void st_cb(struct upump *upump)
+{
+    st_count[upump_get_opaque(upump, uintptr_t)]++;
+}
+static void st_cb_free_other(struct upump *upump)
+{
+    /* frees the pump whose address is in the opaque */
+    struct upump **other_p = upump_get_opaque(upump, struct upump **);
+    if (*other_p != NULL) {
+        upump_free(*other_p);
+        *other_p = NULL;
+    }
+    st_count[7]++;
+}
+
+static void selftest(void)
+{
+    /* two managers coexist */
+    struct upump_mgr *m1 = vloop_mgr_alloc(), *m2 = vloop_mgr_alloc_depth(2, 2);
+    ST_CHECK(m1 != NULL && m2 != NULL);
+    int efd = eventfd(0, EFD_NONBLOCK), pfd[2];
+    ST_CHECK(efd != -1 && pipe(pfd) == 0);
+    struct upump *rd = upump_alloc_fd_read(m1, st_cb, (void *)(uintptr_t)0, NULL, efd);
+    struct upump *wr = upump_alloc_fd_write(m1, st_cb, (void *)(uintptr_t)1, NULL, pfd[1]);
+    struct upump *idl = upump_alloc_idler(m1, st_cb, (void *)(uintptr_t)2, NULL);
+    struct upump *t1 = upump_alloc_timer(m1, st_cb, (void *)(uintptr_t)3, NULL, 100, 0);
+    struct upump *t2 = upump_alloc_timer(m1, st_cb, (void *)(uintptr_t)4, NULL, 30, 50);
+    struct upump *sig = upump_alloc_signal(m1, st_cb, (void *)(uintptr_t)5, NULL, 10);
+    struct upump *other = upump_alloc_idler(m2, st_cb, (void *)(uintptr_t)6, NULL);
+    ST_CHECK(rd && wr && idl && t1 && t2 && sig && other);
+    ST_CHECK(upump_alloc(m1, st_cb, NULL, NULL, 12345) == NULL);
+
+    struct vloop_pump_info info[8];
+    ST_CHECK(vloop_pumps(m1, info, 8) == 6 && vloop_pumps(m2, NULL, 0) == 1);
+    ST_CHECK(info[0].upump == rd && info[0].type == UPUMP_TYPE_FD_READ && info[0].fd == efd);
+    ST_CHECK(info[1].type == UPUMP_TYPE_FD_WRITE && info[1].fd == pfd[1] && !info[1].active);
+    ST_CHECK(info[3].type == UPUMP_TYPE_TIMER && info[3].after == 100 && info[3].repeat == 0);
+    ST_CHECK(info[5].type == UPUMP_TYPE_SIGNAL && info[5].signal == 10 && info[5].id == 6);
+    ST_CHECK(vloop_pump_by_id(m1, 3) == idl && vloop_pump_by_id(m1, 9) == NULL);
+    ST_CHECK(!vloop_pump_info(m2, rd, NULL) && vloop_pump_info(m1, rd, &info[0]));
+
+    /* nothing started: nothing runs */
+    ST_CHECK(vloop_run_once(m1) == 0 && !vloop_dispatch(m1, idl) && !vloop_busy(m1));
+    upump_start(rd); upump_start(wr); upump_start(t1); upump_start(t2); upump_start(sig);
+    upump_start(other);
+    /* descriptor not readable: only the writable pipe end fires */
+    ST_CHECK(!vloop_is_ready(m1, rd) && vloop_is_ready(m1, wr));
+    ST_CHECK(vloop_run_once(m1) == 1 && st_count[1] == 1 && st_count[0] == 0);
+    uint64_t one = 1;
+    ST_CHECK(write(efd, &one, sizeof(one)) == sizeof(one));
+    upump_stop(wr);
+    ST_CHECK(vloop_run_once(m1) == 1 && st_count[0] == 1);
+    /* the other manager is independent */
+    ST_CHECK(st_count[6] == 0 && vloop_run(m2, 3) == 3 && st_count[6] == 3);
+    /* order: descriptors before idlers */
+    upump_start(idl);
+    vloop_log_clear(m1);
+    ST_CHECK(vloop_run_once(m1) == 2);
+    const struct vloop_log_entry *log;
+    ST_CHECK(vloop_log(m1, &log) == 2 && log[0].call == VLOOP_DISPATCH && log[0].id == 1 &&
+             log[1].id == 3);
+    upump_stop(idl);
+    ST_CHECK(read(efd, &one, sizeof(one)) == sizeof(one) && vloop_run(m1, 10) == 0);
+    /* timers: virtual clock, deadline order, one-shot vs repeat */
+    ST_CHECK(vloop_now(m1) == 0 && vloop_next_timer(m1) == t2);
+    ST_CHECK(vloop_advance(m1, 29, 100) == 0 && vloop_advance(m1, 1, 100) == 1 && st_count[4] == 1);
+    ST_CHECK(vloop_advance(m1, 100, 100) == 3 && st_count[3] == 1 && st_count[4] == 3);
+    ST_CHECK(!vloop_is_active(m1, t1) && vloop_is_active(m1, t2) && vloop_now(m1) == 130);
+    upump_restart(t1);
+    ST_CHECK(vloop_pump_info(m1, t1, &info[0]) && info[0].active && info[0].deadline == 230);
+    /* stop keeps the time left */
+    ST_CHECK(vloop_advance(m1, 40, 0) == 0);
+    upump_stop(t1); upump_start(t1);
+    ST_CHECK(vloop_pump_info(m1, t1, &info[0]) && info[0].deadline == 230);
+    /* signals fire only by hand */
+    ST_CHECK(vloop_dispatch(m1, sig) && st_count[5] == 1);
+    /* UPUMP_MGR_RUN in virtual time: non-blocking pumps do not keep it alive */
+    upump_set_status(t2, false); upump_set_status(sig, false); upump_set_status(rd, false);
+    ST_CHECK(vloop_busy(m1));
+    ubase_assert(upump_mgr_run(m1, NULL));
+    ST_CHECK(st_count[3] == 2 && !vloop_busy(m1) && vloop_is_active(m1, t2));
+    /* a call-back frees a later pump of the same iteration */
+    struct upump *killer = upump_alloc_idler(m1, st_cb_free_other, &idl, NULL);
+    ST_CHECK(killer != NULL);
+    upump_start(killer); upump_start(idl);      /* idl (id 3) precedes killer (id 7) */
+    unsigned before = st_count[2];
+    ST_CHECK(vloop_run_once(m1) == 2 && st_count[2] == before + 1 && idl == NULL);
+    ST_CHECK(vloop_run_once(m1) == 1);
+    upump_free(killer);
+    struct upump *victim = upump_alloc_idler(m1, st_cb, (void *)(uintptr_t)2, NULL);
+    killer = upump_alloc_idler(m1, st_cb_free_other, &victim, NULL);
+    /* now the killer is allocated after its victim but fires ... after it too;
+     * put the victim later by re-allocating it */
+    upump_free(victim);
+    victim = upump_alloc_idler(m1, st_cb, (void *)(uintptr_t)2, NULL);
+    upump_start(killer); upump_start(victim);
+    before = st_count[2];
+    ST_CHECK(vloop_run_once(m1) == 1 && st_count[2] == before && victim == NULL);
+    ST_CHECK(vloop_leaked_active(m1) == 0);
+    upump_free(killer);
+    upump_free(rd); upump_free(wr); upump_free(t1); upump_free(t2); upump_free(sig);
+    upump_free(other);
+    ST_CHECK(vloop_pumps(m1, NULL, 0) == 0);
+    upump_mgr_release(m1);
+    upump_mgr_release(m2);
+    close(efd); close(pfd[0]); close(pfd[1]);
+    printf("selftest ok\n");
+}
+
 int main(void)
 {
     char line[256];
@@ -200,6 +315,10 @@ int main(void)
         char op[32] = "", a1[32] = "", a2[32] = "";
         if (sscanf(line, "%31s %31s %31s", op, a1, a2) < 1)
             continue;
+        if (!strcmp(op, "selftest")) {
+            selftest();
+            continue;
+        }
         if (!strcmp(op, "new")) {
             if (!do_new(a1, a2)) {
                 fprintf(stderr, "cannot build %s %s\n", a1, a2);
